@@ -231,6 +231,47 @@ theorem step_good (c : Cfg) (hc : NoJumpCfg c) (s : State) (op : Op) (h : Good s
   | sweep =>
     simp only [step]
     exact applyTxn_good s _ h (sweep_ok c s) (effAll_quietB _ _ (by simp [Eff.quiet, List.all_map, Function.comp_def]))
+  | nested id inner =>
+    simp only [step]
+    split
+    · exact h
+    · rename_i row0 hf
+      have hmem := List.mem_of_find?_eq_some hf
+      split
+      · -- RunTask: two phases with the second worker's deliveries in between
+        rename_i i t hmsg
+        have h1 := claimRow_good s row0.id h
+        split
+        · exact ackRow_good _ _ h1
+        · split
+          · exact deliverRow_good c hc s row0 _ _ hmem h
+          · have h2 := recordExec_good c (claimRow s row0.id) { row0 with attempts := row0.attempts + 1 } h1
+            -- inner deliveries preserve Good
+            have hfold : ∀ (l : List Nat) (st : State), Good st →
+                Good (l.foldl (fun st j =>
+                  match st.queue.find? (fun r => r.id == j) with
+                  | none => st
+                  | some rj => deliverRow c st rj true none) st) := by
+              intro l
+              induction l with
+              | nil => intro st hst; exact hst
+              | cons j js ih =>
+                intro st hst
+                simp only [List.foldl]
+                apply ih
+                split
+                · exact hst
+                · rename_i rj hfj
+                  exact deliverRow_good c hc st rj _ _ (List.mem_of_find?_eq_some hfj) hst
+            have h3 := hfold inner _ h2
+            have hmark : ∀ s' : State, Good s' → Good (applyEff s' (.mark row0.id)) := by
+              intro s' hs'
+              exact applyTxn_good s' [.mark row0.id] hs' (by intro e he; simp at he; subst he; trivial) ⟨by simp, trivial⟩
+            apply ackRow_good
+            apply hmark
+            rw [applyTxns_eq_flatten]
+            exact applyTxn_good _ _ h3 (runTaskCommit_ok c hc _ _ _ _ _ _) (runTaskCommit_legal c _ _ _ _ _ _ _)
+      · exact deliverRow_good c hc s row0 _ _ hmem h
 
 theorem start_good (c : Cfg) : Good (start c) := by
   refine ⟨?_, ?_⟩
